@@ -165,8 +165,8 @@ let lane_cresp args =
         | Ok (SyncIdSet (ck, d, uu)) -> Printf.sprintf "syncidset cookie=%s deletes=%b uuids=%s" (opt_hex ck) d (list_str (fun x -> x) (List.sort compare (List.sort_uniq compare (List.map hex_of_bytes uu))))
         | Panic -> "panic")
   | ["readentry"; v] -> (match parse_read_entry (bytes_of_hex v) with Ok e -> Printf.sprintf "text=%s bin=%s" (show_amap e.e_attrs) (show_amap e.e_bin) | Panic -> "panic")
-  | ["whoami"; v] | ["starttxn"; v] -> (match parse_utf8_val (bytes_of_hex v) with Ok x -> "ok " ^ hex_of_bytes x | Panic -> "panic")
-  | ["passmod"; v] -> (match parse_passmod_resp (bytes_of_hex v) with Ok x -> "ok " ^ hex_of_bytes x | Panic -> "panic")
+  | ["whoami"; v] | ["starttxn"; v] | ["starttxn-raw"; v] -> (match parse_utf8_val (bytes_of_hex v) with Ok x -> "ok " ^ hex_of_bytes x | Panic -> "panic")
+  | ["passmod"; v] | ["passmod-raw"; v] -> (match parse_passmod_resp (bytes_of_hex v) with Ok x -> "ok " ^ hex_of_bytes x | Panic -> "panic")
   | _ -> "BAD-ARGS"
 
 (* ---- message id allocator (C05) ---- *)
